@@ -516,6 +516,28 @@ def extra_jobs(ctx):
                 if tr == "porcelain":
                     j["via"] = "tcp"
                 out.append(j)
+    # ---- a shallow dulwich client against C git upload-pack (which honours haves in shallow sessions):
+    #   c1(R) - c2(P) - c3(X)      c4(S) = child of R,  c5(M) = merge(X, S)
+    # depth-1 clone of X, then (a) deepen to 2: P must arrive, (b) ordinary fetch of M: S and R must
+    # arrive although they lie below the client's boundary, (c) both in a row
+    sg = {"U": {"par": [[], [1], [2], [1], [3, 4]], "tr": [1, 2, 3, 2, 5], "ent": POOL, "lnk": POOL_LINK, "tg": []},
+          "sh": [3, 5], "full": 0, "rh": [], "rt": [], "wants": [["c", 3]], "forged": 0}
+    first = {"wants": [["c", 3]], "depth": 1}
+    seqs = [[first, {"wants": [["c", 3]], "depth": 2}], [first, {"wants": [["c", 5]], "depth": 0}]]
+    if not ctx.quick:
+        seqs += [[first, {"wants": [["c", 3]], "depth": 2}, {"wants": [["c", 5]], "depth": 0}],
+                 [first, {"wants": [["c", 5]], "depth": 2}], [first, {"wants": [["c", 3]], "depth": 0x7FFFFFFF}, {"wants": [["c", 5]], "depth": 0}]]
+    for steps in seqs:
+        for v2 in (False, True):
+            for mode in (("detailed",) if ctx.quick or v2 else ("detailed", "multi", "single")):
+                for tr in (("gitserver",) if ctx.quick else ("gitserver", "tcp", "http", "local")):
+                    if tr != "gitserver" and (v2 or mode != "detailed"):
+                        continue
+                    j = dict(sg)
+                    j.update(op="fetch", transport=tr, caps={"mode": mode, "v2": v2} if tr == "gitserver" else {"mode": mode},
+                             space="shallowgit", gitcheck=1, steps=steps, depth=1,
+                             slayout="loose" if ctx.quick else ["loose", "gitpack"][int(v2)])
+                    out.append(j)
     for (npriv, ncom, both) in ctx.pick([(270, 3, True), (40, 2, False)], [(270, 3, True), (300, 2, False), (600, 4, True), (40, 2, False)]):
         c = long_case(npriv, ncom, both)
         for tr in ("tcp", "local", "gitserver", "githttp", "http", "gitclient"):
@@ -529,7 +551,7 @@ def extra_jobs(ctx):
 # --------------------------------------------------------------------------- judge
 TRACE_KEYS = ("tid", "U", "op", "snd", "rcv", "sstore", "srefs", "r0", "rtips0", "shal0", "depth", "r1", "rtips1", "shal1",
               "runk", "idbad", "gitok",
-              "wants", "mwants", "forged", "inctag", "ok", "cap", "sent", "sunk", "thin", "hk", "haves", "mode", "srv", "cli",
+              "wants", "mwants", "forged", "inctag", "ok", "cap", "sent", "sunk", "thin", "hk", "haves", "offered", "mode", "srv", "cli",
               "rheads", "miv")
 
 
